@@ -17,6 +17,9 @@ CLAIMED = {
     "C08": ("Expand/ExpandString with a symbolic template (<= 3/4 bytes over the template alphabet), ReplaceAll* with symbolic source text and partly symbolic template, Split with symbolic text and symbolic limit n, all vs stdlib", "§5 C08"),
     "C10": ("Longest()/CompilePOSIX results vs stdlib in the same mode; Copy isolation", "§5 C10"),
     "C11": ("internal consistency of all views of one Regex on every byte string within the bound (no oracle)", "§5 C11"),
+    "C15": ("anchored byte automaton (NFA compiler in default / sparse-dot / ASCII-only mode, simulated by the PikeVM) and the end-to-end Match vs regexp on ^(?:c)$ for EVERY byte string of length 1..3 (4 thorough): covers the UTF-8 of all runes of those lengths and all ill-formed inputs", "§5 C15"),
+    "C16": ("prefilter.Find vs the naive least-literal-position definition for every haystack within the bound and start offset 0..2; complete prefilters: FindMatch / LiteralLen span vs leftmost-first match of the source alternation", "§5 C16"),
+    "C17": ("for every member m of L(p) up to length 3 (4): some extracted prefix/suffix/inner literal occurs in m unless the sequence is empty or flagged partial; also under small extractor limits", "§5 C17"),
     "C14": ("PikeVM, BoundedBacktracker, lazy DFA (forward/anchored/earliest/reverse, tiny caches), one-pass DFA driven directly vs stdlib reference or explicit decline", "§5 C14"),
 }
 
